@@ -218,6 +218,25 @@ partial def loop (h : IO.FS.Stream) (d : DS) : IO Unit := do
           IO.println s!"acc={want} ran={order.length} jobs={showJobs d}"
           loop h { d.clear with quiet := false }
     | _ => IO.println "bad-op"; loop h d
+  | some "D" =>
+    -- drain hammer: k submitters x n tiny ungated jobs, free running.  Whatever the interleaving, every submission is
+    -- accepted (or every one refused: closed conn), everything accepted runs, the queue ends empty (c05_completes /
+    -- c19_async_completes); the driver runs one interleaving (submitter after submitter) through the model
+    match nums with
+    | c :: n :: k :: _ =>
+      let idle := d.conns.all (fun s => s.list.isEmpty)
+      if d.exec == "park" || d.exec == "pool" || !idle then IO.println "rejected"; loop h d
+      else
+        let closed := (d.conn c).closed && d.kind == .conn
+        let must := d.kind == .async
+        let d := { d.clear with quiet := true }
+        let d := (List.range (n * k)).foldl (fun d j => submit d c (200000 + j) must false false false) d
+        let drained := (d.conn c).list.isEmpty && (d.conn c).drs.isEmpty
+        let want := if closed then 0 else n * k
+        if !drained then IO.println "MODEL the model's queue did not drain"
+        else IO.println s!"acc={want} ran={want} jobs={showJobs d}"
+        loop h { d.clear with quiet := false, gated := [] }
+    | _ => IO.println "bad-op"; loop h d
   | some "H" =>
     -- hammer: k goroutines call Execute n times each while another one calls Close
     match nums with
